@@ -15,7 +15,11 @@ const CONFIGS: &[&str] = &[
     "{rules: ['remove_comments', 'remove_empty_do']}",
     // files excluded at the top level: nothing is written for them (and what an earlier configuration wrote goes away)
     "{rules: ['remove_comments'], skip_files: ['**/solo.lua', 'src/pkg/**'], bundle: {require_mode: 'path'}}",
+    // requires rewritten from where the required file is found: the output of a file depends on the files it requires
+    "{rules: [{rule: 'convert_require', current: 'path', target: 'roblox'}]}",
 ];
+
+const LUAURC: [&str; 2] = ["{\"aliases\": {\"u\": \"./util/c.lua\"}}", "{\"aliases\": {\"u\": \"./solo.lua\"}}"];
 
 fn initial_files() -> Vec<(&'static str, String)> {
     vec![
@@ -24,7 +28,9 @@ fn initial_files() -> Vec<(&'static str, String)> {
         ("src/lib/b.lua", "-- b v0\nreturn 'b0'\n".to_owned()),
         ("src/util/c.lua", "-- c v0\ndo end\nreturn 'c0'\n".to_owned()),
         ("src/solo.lua", "-- solo v0\nreturn 'solo0'\n".to_owned()),
-        ("src/pkg/top.lua", "-- top v0\nreturn 'top0'\n".to_owned()),
+        // `@u` is an alias of the nearest .luaurc: which file it designates is decided by that file
+        ("src/pkg/top.lua", "-- top v0\nlocal u = require(\"@u\")\nreturn 'top0', u\n".to_owned()),
+        ("src/.luaurc", LUAURC[0].to_owned()),
         ("src/pkg/deep/leaf.lua", "-- leaf v0\nreturn 'leaf0'\n".to_owned()),
         ("vendor/v.lua", "-- v v0\nreturn 'v0'\n".to_owned()),
         ("out/README.txt", "foreign readme".to_owned()),
@@ -65,12 +71,17 @@ pub const EVENTS: &[Event] = &[
     Event::Add("vendor/v.lua"),
     Event::Add("src/lib/b.luau"),
     Event::Rename("src/solo.lua", "src/solo2.lua"),
+    // the .luaurc that decides what `@u` designates in src/pkg/top.lua
+    Event::Edit("src/.luaurc"),
+    Event::RemoveFile("src/.luaurc"),
+    Event::Add("src/.luaurc"),
     Event::SetConfig(1),
     Event::SetConfig(2),
     Event::SetConfig(3),
     Event::SetConfig(4),
     Event::SetConfig(0),
     Event::SetConfig(5),
+    Event::SetConfig(6),
     Event::Spurious("src/main.lua"),
     Event::Spurious("src/lib"),
 ];
@@ -194,6 +205,12 @@ fn list_files(store: &Store) -> BTreeMap<String, String> {
 }
 
 fn toggled(content: &str) -> String {
+    if content == LUAURC[0] {
+        return LUAURC[1].to_owned();
+    }
+    if content == LUAURC[1] {
+        return LUAURC[0].to_owned();
+    }
     if content.contains("v0") || content.contains("0'") {
         content.replace("v0", "v1").replace("0'", "1'")
     } else {
@@ -264,7 +281,7 @@ impl World {
                     }
                     Event::Add(f) => {
                         if store.get(f).is_none() {
-                            let body = if f.ends_with("b.lua") { "-- b v0\nreturn 'b0'\n".to_owned() } else if f.ends_with("v.lua") { "-- v v0\nreturn 'v0'\n".to_owned() } else { format!("-- {} v0\nreturn 'n0'\n", f) };
+                            let body = if f.ends_with(".luaurc") { LUAURC[1].to_owned() } else if f.ends_with("b.lua") { "-- b v0\nreturn 'b0'\n".to_owned() } else if f.ends_with("v.lua") { "-- v v0\nreturn 'v0'\n".to_owned() } else { format!("-- {} v0\nreturn 'n0'\n", f) };
                             store.write(f, &body);
                             has_created = true;
                         }
@@ -425,6 +442,21 @@ pub enum WatchEvent {
     RemovePlain,
     CreatePlain,
     ToggleConfig,
+    /// src/vendor/a.lua: below a plain directory, or (linked layout) below a link to a directory outside the input
+    EditLinked,
+    RemoveLinked,
+    CreateLinked,
+}
+
+/// how the project is laid out and named on the command line
+#[derive(Clone, Copy, Debug, PartialEq, Eq)]
+pub enum WatchLayout {
+    /// `darklua process src out --watch`
+    Relative,
+    /// `darklua process <cwd>/src <cwd>/out --watch`
+    Absolute,
+    /// src/vendor is a symbolic link to <cwd>/vendor_real
+    Linked,
 }
 
 const WATCH_EVENTS: &[WatchEvent] = &[
@@ -435,6 +467,9 @@ const WATCH_EVENTS: &[WatchEvent] = &[
     WatchEvent::RemovePlain,
     WatchEvent::CreatePlain,
     WatchEvent::ToggleConfig,
+    WatchEvent::EditLinked,
+    WatchEvent::RemoveLinked,
+    WatchEvent::CreateLinked,
 ];
 
 const WATCH_CONFIGS: [&str; 2] = ["{rules: [], generator: 'dense', bundle: {require_mode: 'path'}}", "{rules: ['remove_comments'], generator: 'dense', bundle: {require_mode: 'path'}}"];
@@ -469,21 +504,39 @@ fn disk_outputs(root: &std::path::Path) -> BTreeMap<String, String> {
 }
 
 /// runs one history against a fresh watcher process; Ok(None) when every step converged to the fresh-run outputs
-fn run_watch_history(binary: &std::path::Path, history: &[WatchEvent], timeout_ms: u64) -> Result<Option<String>, String> {
+fn run_watch_history(binary: &std::path::Path, layout: WatchLayout, history: &[WatchEvent], timeout_ms: u64) -> Result<Option<String>, String> {
     let dir = tempfile::tempdir().map_err(|e| e.to_string())?;
-    let root = dir.path();
+    // the notify backend reports canonical paths: name the directory the same way
+    let root_buf = dir.path().canonicalize().map_err(|e| e.to_string())?;
+    let root = root_buf.as_path();
+    // where a file of the project (as darklua sees it) is stored
+    let physical = |p: &str| -> PathBuf {
+        match (layout, p.strip_prefix("src/vendor/")) {
+            (WatchLayout::Linked, Some(rest)) => root.join("vendor_real").join(rest),
+            _ => root.join(p),
+        }
+    };
     let mut files: BTreeMap<String, String> = BTreeMap::new();
     files.insert("src/main.lua".into(), "-- main 0\nlocal a = require(\"../lib/a\")\nreturn a\n".into());
     files.insert("lib/a.lua".into(), "return 'A0'\n".into());
     files.insert("src/b.lua".into(), "-- b\nreturn 'b0'\n".into());
+    files.insert("src/vendor/a.lua".into(), "-- va\nreturn 'va0'\n".into());
+    files.insert("src/vendor/b.lua".into(), "-- vb\nreturn 'vb0'\n".into());
     files.insert(".darklua.json".into(), WATCH_CONFIGS[0].into());
     for (p, c) in &files {
-        let full = root.join(p);
+        let full = physical(p);
         std::fs::create_dir_all(full.parent().unwrap()).map_err(|e| e.to_string())?;
         std::fs::write(full, c).map_err(|e| e.to_string())?;
     }
+    if layout == WatchLayout::Linked {
+        std::os::unix::fs::symlink(root.join("vendor_real"), root.join("src/vendor")).map_err(|e| format!("cannot create the link: {}", e))?;
+    }
+    let args: Vec<std::ffi::OsString> = match layout {
+        WatchLayout::Absolute => vec!["process".into(), root.join("src").into_os_string(), root.join("out").into_os_string(), "--watch".into()],
+        _ => vec!["process".into(), "src".into(), "out".into(), "--watch".into()],
+    };
     let mut child = std::process::Command::new(binary)
-        .args(["process", "src", "out", "--watch"])
+        .args(&args)
         .current_dir(root)
         .stdin(std::process::Stdio::null())
         .stdout(std::process::Stdio::null())
@@ -532,6 +585,8 @@ fn run_watch_history(binary: &std::path::Path, history: &[WatchEvent], timeout_m
                 WatchEvent::EditDependency => ("lib/a.lua", Some(format!("return 'A{}'\n", version))),
                 WatchEvent::EditPlain | WatchEvent::CreatePlain => ("src/b.lua", Some(format!("-- b\nreturn 'b{}'\n", version))),
                 WatchEvent::RemovePlain => ("src/b.lua", None),
+                WatchEvent::EditLinked | WatchEvent::CreateLinked => ("src/vendor/a.lua", Some(format!("-- va\nreturn 'va{}'\n", version))),
+                WatchEvent::RemoveLinked => ("src/vendor/a.lua", None),
                 WatchEvent::ToggleConfig => {
                     config = 1 - config;
                     (".darklua.json", Some(WATCH_CONFIGS[config].to_owned()))
@@ -542,11 +597,14 @@ fn run_watch_history(binary: &std::path::Path, history: &[WatchEvent], timeout_m
                     if *ev == WatchEvent::EditPlain && !files.contains_key("src/b.lua") {
                         continue;
                     }
-                    let _ = std::fs::write(root.join(path), &c);
+                    if *ev == WatchEvent::EditLinked && !files.contains_key("src/vendor/a.lua") {
+                        continue;
+                    }
+                    let _ = std::fs::write(physical(path), &c);
                     files.insert(path.to_owned(), c);
                 }
                 None => {
-                    let _ = std::fs::remove_file(root.join(path));
+                    let _ = std::fs::remove_file(physical(path));
                     files.remove(path);
                 }
             }
@@ -561,7 +619,21 @@ fn run_watch_history(binary: &std::path::Path, history: &[WatchEvent], timeout_m
     Ok(result)
 }
 
-fn watch_histories(tier: Tier) -> Vec<Vec<WatchEvent>> {
+fn watch_histories(tier: Tier) -> Vec<(WatchLayout, Vec<WatchEvent>)> {
+    let mut out: Vec<(WatchLayout, Vec<WatchEvent>)> = watch_histories_relative(tier).into_iter().map(|h| (WatchLayout::Relative, h)).collect();
+    // the other layouts: every sequence of the whole alphabet up to length 1 (2 thorough), and what follows a removal below the link
+    for layout in [WatchLayout::Absolute, WatchLayout::Linked] {
+        let mut seqs: Vec<Vec<WatchEvent>> = vec![vec![]];
+        for _ in 0..tier.pick(1, 2) {
+            seqs = seqs.iter().flat_map(|s| WATCH_EVENTS.iter().map(move |e| { let mut t = s.clone(); t.push(*e); t })).collect();
+            out.extend(seqs.iter().cloned().map(|h| (layout, h)));
+        }
+        out.push((layout, vec![WatchEvent::RemoveLinked, WatchEvent::EditPlain, WatchEvent::CreateLinked]));
+    }
+    out
+}
+
+fn watch_histories_relative(tier: Tier) -> Vec<Vec<WatchEvent>> {
     use WatchEvent::*;
     let mut out: Vec<Vec<WatchEvent>> = Vec::new();
     // the dependency set of the bundle entry shrinks and grows: every sequence over {with, without, edit dependency}, closed by an edit of the dependency
@@ -595,32 +667,32 @@ fn watch_binary_cases(tier: Tier, report: &mut Report) {
     };
     let histories = watch_histories(tier);
     let pool = rayon::ThreadPoolBuilder::new().num_threads(12).build().expect("pool");
-    let results: Vec<(Vec<WatchEvent>, Result<Option<String>, String>)> = pool.install(|| {
+    let results: Vec<((WatchLayout, Vec<WatchEvent>), Result<Option<String>, String>)> = pool.install(|| {
         histories
             .par_iter()
-            .map(|h| {
-                let first = run_watch_history(&binary, h, 8_000);
+            .map(|(layout, h)| {
+                let first = run_watch_history(&binary, *layout, h, 8_000);
                 match first {
                     Ok(Some(_)) => {
                         // a failure counts only if it happens again, with twice the patience
-                        let second = run_watch_history(&binary, h, 16_000);
-                        (h.clone(), second)
+                        let second = run_watch_history(&binary, *layout, h, 16_000);
+                        ((*layout, h.clone()), second)
                     }
-                    other => (h.clone(), other),
+                    other => ((*layout, h.clone()), other),
                 }
             })
             .collect()
     });
     let mut steps = 0u64;
-    for (h, r) in results {
+    for ((layout, h), r) in results {
         steps += h.len() as u64 + 1;
         report.evaluations += 1;
         match r {
             Ok(None) => {}
             Ok(Some(problem)) => report.violations.push(Violation {
                 finding: None,
-                summary: format!("`darklua process src out --watch` did not converge to the outputs of a fresh run (twice): {}\n--- events written to the file system, each followed by a wait for the outputs: {:?}", problem, h),
-                replay: json!({"kind": "watch process", "history": format!("{:?}", h), "problem": problem}),
+                summary: format!("`darklua process src out --watch` ({:?} layout) did not converge to the outputs of a fresh run (twice): {}\n--- events written to the file system, each followed by a wait for the outputs: {:?}", layout, problem, h),
+                replay: json!({"kind": "watch process", "layout": format!("{:?}", layout), "history": format!("{:?}", h), "problem": problem}),
             }),
             Err(e) => crate::common::machinery_error(&format!("C10 watch process harness: {}", e)),
         }
@@ -668,15 +740,36 @@ fn explore(on_disk: bool, tier: Tier, report: &mut Report) -> (usize, usize) {
                 h.push(menu[*j].clone());
                 let r = replay(&h, on_disk).map(|w| {
                     let mut problems = judge(&w);
-                    // attribute to the known finding only when hiding the newly created, shadowing file explains everything
-                    const SHADOWING: &str = "src/lib/b.luau";
-                    if !problems.is_empty() && w.store.get(SHADOWING).is_some() && w.store.get("src/lib/b.lua").is_some() {
-                        // per output: work that ran again since the file was created saw it, the rest did not. Every output
-                        // that differs from the fresh run must equal the run that does not see the file, and nothing else may be wrong
+                    // attribute to a known finding only when hiding a newly created file explains everything: work that ran again
+                    // since the file was created saw it, the rest did not. Every output that differs from the fresh run must equal
+                    // a run that does not see one of the candidate files, and nothing else may be wrong
+                    if !problems.is_empty() {
                         let differing = |ps: &[String]| -> Option<Vec<String>> { ps.iter().map(|p| p.split(" differs from a fresh run").next().filter(|_| p.contains(" differs from a fresh run")).map(|s| s.to_owned())).collect() };
-                        if let (Some(full), Some(hidden)) = (differing(&problems), differing(&judge_hiding(&w, Some(SHADOWING)))) {
-                            if full.iter().all(|p| !hidden.contains(p)) {
-                                problems.insert(0, "KNOWN:new-file-earlier-in-the-resolution-order-is-not-noticed".to_owned());
+                        let converting = w.store.get(".darklua.json").as_deref() == Some(CONFIGS[6]);
+                        let (candidates, id): (&[&str], &str) = if converting {
+                            // convert_require leaves a require it cannot resolve (with a warning): nothing runs it again when the file appears
+                            (&["src/lib/b.lua", "src/lib/b.luau", "vendor/v.lua", "src/.luaurc"], "convert-require-is-not-run-again-when-the-file-it-could-not-find-appears")
+                        } else if w.store.get("src/lib/b.lua").is_some() {
+                            // a file that comes before a bundled one in the resolution order
+                            (&["src/lib/b.luau"], "new-file-earlier-in-the-resolution-order-is-not-noticed")
+                        } else {
+                            (&[], "")
+                        };
+                        if let Some(full) = differing(&problems) {
+                            let mut explained = vec![false; full.len()];
+                            for c in candidates {
+                                if w.store.get(c).is_some() {
+                                    if let Some(hidden) = differing(&judge_hiding(&w, Some(c))) {
+                                        for (i, p) in full.iter().enumerate() {
+                                            if !hidden.contains(p) {
+                                                explained[i] = true;
+                                            }
+                                        }
+                                    }
+                                }
+                            }
+                            if !explained.is_empty() && explained.iter().all(|e| *e) {
+                                problems.insert(0, format!("KNOWN:{}", id));
                             }
                         }
                     }
@@ -725,14 +818,15 @@ fn explore(on_disk: bool, tier: Tier, report: &mut Report) -> (usize, usize) {
 pub fn run(tier: Tier) -> Report {
     let mut report = Report::new("C10", "model_checking", tier);
     report.rule = "project: bundle entry src/main.lua (requires ./lib/a and ../vendor/v outside the input), src/lib/a.lua (requires ./b), src/lib/b.lua, src/util/c.lua, src/solo.lua, \
-        foreign files out/README.txt and out/lib/keep.me, 5 configurations (bundle+no rules, +remove_comments, +rule filter, +dense generator, no bundle). Labels = 21 events (edit of \
-        each source / bundled dependency / external dependency, add, re-add, remove file, remove directory, rename, configuration change, spurious notifications) delivered exactly as \
+        src/pkg/top.lua (requires `@u`, an alias of src/.luaurc that names a file), src/pkg/deep/leaf.lua, foreign files out/README.txt and out/lib/keep.me, 7 configurations (bundle+no rules, \
+        +remove_comments, +rule filter, +dense generator, no bundle, top-level skip_files, convert_require path -> roblox). Labels = the events listed under `events` (edit of each source / \
+        bundled dependency / external dependency / .luaurc, add, re-add, add of a file earlier in the resolution order, remove file, remove directory, rename, configuration change, spurious notifications) delivered exactly as \
         FileWatcher::process_events does, in batches of 1 or 2 events followed by WorkerTree::process. BFS over batches from the state after the initial run, states rebuilt by replaying \
         the history on fresh real objects and merged on (all files, WorkerTree::verif_digest, last error); after every pass the output tree is compared with a fresh darklua_core::process \
         over the same inputs, configuration and foreign files"
         .to_owned();
     report.assumptions = vec![
-        "the explicit-state search starts at the WorkerTree calls FileWatcher::process_events makes; the layer above (notify events, debouncing, watching of dependencies outside the input) is exercised by a smaller exhaustive set of histories against the real `darklua process --watch` binary on a temporary directory, where a failure is reported only if it happens twice; symbolic links are not exercised".to_owned(),
+        "the explicit-state search starts at the WorkerTree calls FileWatcher::process_events makes; the layer above (notify events, debouncing, watching of dependencies outside the input) is exercised by a smaller exhaustive set of histories against the real `darklua process --watch` binary on a temporary directory, where a failure is reported only if it happens twice, in three layouts: relative paths, absolute input and output paths, and a source directory that is a symbolic link (absolute target) to a directory outside the input; relative link targets and links to single files are not exercised".to_owned(),
         "a source that fails in the fresh run may keep a stale output; only the presence of an error for it is required".to_owned(),
         "every history is run on in-memory resources and again in a temporary directory on the real file system (where emptied output directories are pruned)".to_owned(),
     ];
